@@ -122,7 +122,11 @@ func (f *Frame) execInstr(cur *blockCur, in ssa.Instruction) {
 				if !blockReaches(d.block, cur.b) {
 					continue // this defer statement cannot have run on any path to here
 				}
-				f.unsupported("conditional defer (block %d does not dominate %d)", d.block.Index, cur.b.Index)
+				// the deferred call may or may not have been registered on the path to this return: both are covered
+				// by treating it as an unknown call here (anything may have happened to memory, nothing is learned)
+				f.c.note("conditional defer: the deferred call (registered in block %d) is treated as unknown code at the return in block %d", d.block.Index, cur.b.Index)
+				f.havocAll(cur)
+				continue
 			}
 			f.execCall(cur, d.instr, d.call, nil)
 			if cur.dead {
